@@ -64,6 +64,19 @@ def mutation_sites(repo, problems):
             params = {a.arg for a in fn.args.args + fn.args.kwonlyargs}
             if fn.args.vararg:
                 params.add(fn.args.vararg.arg)
+            # locals bound to the very object a parameter names: `x = p`, `x = iterable(p, ..)` (identity on lists)
+            aliases = {p: p for p in params}
+            changed = True
+            while changed:
+                changed = False
+                for m in ast.walk(fn):
+                    if isinstance(m, ast.Assign) and len(m.targets) == 1 and isinstance(m.targets[0], ast.Name):
+                        v = m.value
+                        if isinstance(v, ast.Call) and isinstance(v.func, ast.Name) and v.func.id == "iterable" and v.args:
+                            v = v.args[0]
+                        if isinstance(v, ast.Name) and v.id in aliases and m.targets[0].id not in aliases:
+                            aliases[m.targets[0].id] = aliases[v.id]
+                            changed = True
             for n in ast.walk(fn):
                 site = None
                 if isinstance(n, ast.Assign):
@@ -82,6 +95,9 @@ def mutation_sites(repo, problems):
                 elif isinstance(n, ast.Delete):
                     for t in n.targets:
                         site = ("del", _base(t))
+                if site and site[1] in aliases and site[1] not in params:
+                    # a local that is just another name for a parameter (x = p, x = iterable(p), x = p or ..): same object
+                    rows.append((mod + "." + fn.name, site[0], site[1], "alias of " + aliases[site[1]]))
                 if site and site[1] in params:
                     # the last rebinding of that parameter before the site (a fresh copy makes the write harmless)
                     rebind, best = "", -1
